@@ -181,7 +181,29 @@ func (C08Checker) Check(s *Step) []*Violation {
 						}
 					}
 				}
+				// does a live intent outside the request also contribute to the losing case?
+				otherHolds := false
+				for owner, li := range m.Live {
+					inReq := false
+					for _, is := range s.Op.Intents {
+						if is.Owner == owner {
+							inReq = true
+						}
+					}
+					if inReq {
+						continue
+					}
+					for q := range li.Defined {
+						for _, qs := range choiceSlots(q) {
+							if qs.key() == sl.key() && qs.cas == sl.cas {
+								otherHolds = true
+							}
+						}
+					}
+				}
 				switch {
+				case hadPath && otherHolds:
+					t += ":requester-had-loser-path:loser-also-held-by-other"
 				case hadPath:
 					t += ":requester-had-loser-path"
 				case inCase && len(casesSeen) >= 3:
